@@ -10,8 +10,11 @@ CONSTANTS
   MaxFail = 1
   MaxSync = 1
   Eager = FALSE
+  SendHoldsLock = TRUE
+  MaxApply = 1
+  Gated = {FALSE}
   Hist = FALSE
   EmitMode = "none"
-INVARIANTS TypeOK OrderPreserved BatchBound AcceptedAreSurvivors QueueIsSuffix LossCounted LossExact SentCounted DrainComplete
+INVARIANTS TypeOK OrderPreserved BatchBound AcceptedAreSurvivors QueueIsSuffix LossCounted LossExact AllAccepted SentCounted DrainComplete
 PROPERTIES DropOldest
 CHECK_DEADLOCK FALSE
